@@ -12,7 +12,13 @@ cp "$src/demo.py" "$wt/demo.py"
 ( cd "$wt" && PYTHONPATH="$wt" MPLBACKEND=Agg /venv/bin/python demo.py >/dev/null 2>&1 ); without=$?
 ( cd "$wt" && git apply "$src/mutant.diff" ) || { echo "patch does not apply"; cleanup; exit 2; }
 ( cd "$wt" && PYTHONPATH="$wt" MPLBACKEND=Agg /venv/bin/python demo.py >/tmp/confirm_demo.out 2>&1 ); with=$?
-suite=$("$here/tools/baseline.py" "$wt" 2>&1); suite_rc=$?
+# the pinned suite has one randomly flaky pair (tests/drawing/test_draw.py::test_issue_515 draws an unseeded layout and,
+# when it overflows, makes the draw doctest fail too) - also on the unchanged tree; retry up to 4 times for a clean run
+for attempt in 1 2 3 4; do
+  suite=$("$here/tools/baseline.py" "$wt" 2>&1); suite_rc=$?
+  [ $suite_rc -eq 0 ] && break
+  echo "  suite attempt $attempt: $(echo "$suite" | grep MISSING | tr '\n' ' ' | cut -c1-200)"
+done
 echo "demo without change: exit $without; with change: exit $with; suite: $(echo "$suite" | head -2 | tr '\n' ' ') rc=$suite_rc"
 if [ $without -eq 0 ] && [ $with -ne 0 ] && [ $suite_rc -eq 0 ]; then
   mkdir -p "$here/seeded/$id"
